@@ -3,7 +3,8 @@ import RasnModel.Basic.SortedMap
   Skeleton of the compilation pipeline (lib.rs `internal_compile`, validator/mod.rs `Validator::new`
   / `validate`, generator/rasn/mod.rs `generate_module`), with the per-definition work abstracted:
     sources → flat list of definitions (each carries its module header)
-            → BTreeMap keyed by BARE NAME (`Validator::new`; a later definition of the same name wins)
+            → BTreeMap keyed by BARE NAME (`Validator::new`; a later definition of the same name wins,
+              the replaced one is reported by a warning — since fix a96216a)
             → validate: partition into valid / validator warnings (map order)
             → BTreeMap<module name, Vec<definition>> (`fold` over the valid ones, map order)
             → per module, in module-name order: the backend copies the header's tagging / extensibility
@@ -38,17 +39,25 @@ inductive Ev where
   | genWarn (module name : String)
   /-- the definition is the subject of a validator warning -/
   | valWarn (name : String)
+  /-- the definition (of that module) was replaced by a later one of the same bare name: a warning says so -/
+  | replWarn (module name : String)
   deriving DecidableEq, Repr
 
 def Ev.subject : Ev → String
   | .emitted _ n _ => n
   | .genWarn _ n => n
   | .valWarn n => n
+  | .replWarn _ n => n
 
 variable {β : Type}
 
 /-- `Validator::new`: collect into a BTreeMap by bare name -/
 def index (ds : List (Def β)) : List (String × Def β) := SMap.ofList (ds.map fun d => (d.name, d))
+
+/-- `Validator::new` as written: one `insert` per definition, in input order; a definition whose name is
+    already bound is replaced and remembered (map, replaced definitions in the order they were replaced) -/
+def indexW (ds : List (Def β)) : List (String × Def β) × List (Def β) :=
+  ds.foldl (fun acc d => let r := SMap.insR d.name d acc.1; (r.1, acc.2 ++ r.2.toList)) ([], [])
 
 /-- names of the modules that own at least one definition, in `BTreeMap` order -/
 def moduleNames (ds : List (Def β)) : List String :=
@@ -74,9 +83,11 @@ def generateAll (gen : BState → Def β → Option String) (st : BState) (mods 
 
 /-- `internal_compile` -/
 def compile (validate : Def β → Bool) (gen : BState → Def β → Option String) (st : BState) (ds : List (Def β)) : List Ev :=
-  let m := (index ds).map (·.2)
+  let iw := indexW ds
+  let m := iw.1.map (·.2)
   let valid := m.filter validate
   let invalid := m.filter (fun d => !validate d)
-  (generateAll gen st (groupByModule valid)).2 ++ invalid.map (fun d => Ev.valWarn d.name)
+  (generateAll gen st (groupByModule valid)).2 ++ iw.2.map (fun d => Ev.replWarn d.hdr.name d.name) ++
+    invalid.map (fun d => Ev.valWarn d.name)
 
 end Pipe
